@@ -8,7 +8,7 @@
 (***************************************************************************)
 EXTENDS XPools, XCatalog, Json, CSV, IOUtils, SequencesExt
 
-CONSTANTS Family, MaxNodes, UseCat, UseVal,
+CONSTANTS Family, MaxNodes, UseCat, UseVal, CatIds,
           ElemNames, AttrNames, TextVals, WithComment
 
 VARIABLES doc, grow, part, expr
@@ -33,6 +33,7 @@ FlatPaths ==
 (***************************************************************************)
 HostAxes5 == {"child", "descendant", "self", "following-sibling", "ancestor"}
 PredAxesB == {"child", "ancestor", "following", "preceding", "descendant", "parent"}
+HostAxesB == <<"child", "descendant", "following", "preceding-sibling", "ancestor-or-self">>
 ArithLeaves == NumLeavesSmall \cup NumLeavesDoc
 D2M == {N(2), Dec(1, 1), N(0), Call("count", <<Rel1("child", NTAny)>>), NaNExpr}
 OpSeq == <<"+", "-", "*", "div", "mod">>
@@ -42,11 +43,11 @@ PoolSets ==
     CASE Family = "C02a"  -> [i \in 1 .. 12 |-> PoolC02a({SetToSeq(AllAxes)[i]}, TestsA, AllAxes, TestsA)]
       [] Family = "C02a-small" -> [i \in 1 .. 5 |-> PoolC02a({SetToSeq(HostAxes5)[i]}, {NTAny}, AllAxes, TestsA)]
       [] Family = "C02b"  ->
-           << PoolC02b({"child", "descendant", "following", "preceding-sibling", "ancestor-or-self"}, {NTAny},
-                       Combos({Rel1(ax, NTName("a")) : ax \in PredAxesB} \cup {Bin("=", Rel1("child", NTAny), Lit("1"))})),
-              PoolC02b({"child", "descendant", "following", "preceding-sibling", "ancestor-or-self"}, {NTAny},
+           [i \in 1 .. 5 |-> PoolC02b({HostAxesB[i]}, {NTAny},
+                       Combos({Rel1(ax, NTName("a")) : ax \in PredAxesB} \cup {Bin("=", Rel1("child", NTAny), Lit("1"))}))]
+           \o [i \in 1 .. 5 |-> PoolC02b({HostAxesB[i]}, {NTAny},
                        Nested({"child", "ancestor", "following-sibling", "descendant"}, {NTAny},
-                              Atoms1({"child", "ancestor", "following", "preceding-sibling"}, {NTName("a")}))) >>
+                              Atoms1({"child", "ancestor", "following", "preceding-sibling"}, {NTName("a")})))]
       [] Family = "C02two" -> [i \in 1 .. 4 |-> PoolC02two({SetToSeq({"child", "descendant", "following-sibling", "ancestor"})[i]}, {NTAny},
                                 Atoms1({"child", "ancestor", "following", "preceding"}, {NTName("a")}))]
       [] Family = "C02paren" -> <<PoolC02paren(FlatPaths, Atoms1({"child", "ancestor", "following", "preceding-sibling", "parent"}, TestsA))>>
@@ -98,7 +99,7 @@ NewNodes(d) ==
 Init ==
     /\ expr = NoExpr /\ part = 0
     /\ \/ MaxNodes > 1 /\ doc = EmptyDoc /\ grow = TRUE
-       \/ UseCat /\ \E i \in 1 .. Len(Catalogue) : doc = Catalogue[i] /\ grow = FALSE
+       \/ UseCat /\ \E i \in CatIds : doc = Catalogue[i] /\ grow = FALSE
        \/ UseVal /\ \E i \in 1 .. Len(ValDocs) : doc = ValDocs[i] /\ grow = FALSE
 
 AddNode ==
